@@ -193,6 +193,8 @@ def path_cycle(path, dg2, offset, pos):
 # ------------------------------------------------------------------------------------------
 # raw event log (real processes): one JSON line per event, O_APPEND, monotonic clock
 # ------------------------------------------------------------------------------------------
+_ABSENT = object()
+
 class EventLog:
     def __init__(self, path):
         self.path = path
@@ -395,13 +397,16 @@ class RealRecorder:
         self.kd = kd
         for name, val in (("Process", self._Process), ("Manager", self._Manager),
                           ("cpu_count", lambda: rec.nw), ("time", T()), ("os", O())):
-            self.saved[name] = getattr(kd, name)
+            self.saved[name] = getattr(kd, name, _ABSENT)   # a collaborator the module no longer imports
             setattr(kd, name, val)
         return self
 
     def __exit__(self, *a):
         for name, val in self.saved.items():
-            setattr(self.kd, name, val)
+            if val is _ABSENT:
+                delattr(self.kd, name)
+            else:
+                setattr(self.kd, name, val)
         return False
 
 
